@@ -36,41 +36,71 @@ def tree_hash(repo):
     return h.hexdigest()
 
 
+def _complete(d):
+    try:
+        return os.path.isdir(d) and all(os.path.getsize(os.path.join(d, c + ".json")) > 0 for c in CRATES)
+    except OSError:
+        return False
+
+
 def get_facts(repo=REPO):
     """Return (facts_dir, tree_hash, cache_hit, error)."""
     th = tree_hash(repo)
     os.makedirs(CACHE, exist_ok=True)
     d = os.path.join(CACHE, th)
-    if os.path.isdir(d) and all(os.path.getsize(os.path.join(d, c + ".json")) > 0 for c in CRATES if os.path.exists(os.path.join(d, c + ".json"))) and all(os.path.exists(os.path.join(d, c + ".json")) for c in CRATES):
+    if _complete(d):
         return d, th, True, None
-    tmp = tempfile.mkdtemp(prefix="facts.", dir=CACHE)
-    r = subprocess.run([os.path.join(VERIF, "bin", "extract_facts.sh"), repo, tmp], capture_output=True, text=True)
-    if r.returncode != 0:
-        log = ""
-        try:
-            log = open(os.path.join(tmp, "cargo.log")).read()[-4000:]
-        except Exception:
-            pass
-        shutil.rmtree(tmp, ignore_errors=True)
-        return None, th, False, (r.stderr + "\n" + log)
-    # prune old caches (keep 6 newest)
+    # one extraction per tree at a time: checks started in parallel on the same tree wait for the first one's facts
+    # instead of replacing the directory another process is reading
+    import fcntl, time
+    lock = open(os.path.join(CACHE, th + ".lock"), "w")
     try:
-        if os.path.isdir(d):
-            shutil.rmtree(d, ignore_errors=True)
-        os.rename(tmp, d)
-    except OSError:
-        d = tmp
-    ents = sorted((os.path.getmtime(os.path.join(CACHE, e)), e) for e in os.listdir(CACHE) if e != "ai")
+        fcntl.flock(lock, fcntl.LOCK_EX)
+        if _complete(d):
+            return d, th, True, None
+        tmp = tempfile.mkdtemp(prefix="facts.", dir=CACHE)
+        r = subprocess.run([os.path.join(VERIF, "bin", "extract_facts.sh"), repo, tmp], capture_output=True, text=True)
+        if r.returncode != 0:
+            log = ""
+            try:
+                log = open(os.path.join(tmp, "cargo.log")).read()[-4000:]
+            except Exception:
+                pass
+            shutil.rmtree(tmp, ignore_errors=True)
+            return None, th, False, (r.stderr + "\n" + log)
+        try:
+            if os.path.isdir(d):
+                shutil.rmtree(d, ignore_errors=True)
+            os.rename(tmp, d)
+        except OSError:
+            d = tmp
+    finally:
+        try:
+            fcntl.flock(lock, fcntl.LOCK_UN)
+            lock.close()
+        except OSError:
+            pass
+    # prune old caches (keep the 6 newest; never one touched in the last 15 minutes: it may belong to a check that is running)
+    now = time.time()
+    ents = sorted((os.path.getmtime(os.path.join(CACHE, e)), e) for e in os.listdir(CACHE) if e != "ai" and not e.endswith(".lock"))
     aid = os.path.join(CACHE, "ai")
     if os.path.isdir(aid):
         aents = sorted((os.path.getmtime(os.path.join(aid, e)), e) for e in os.listdir(aid))
-        for _, e in aents[:-8]:
+        for mt, e in aents[:-8]:
+            if now - mt < 900:
+                continue
             try:
                 os.remove(os.path.join(aid, e))
             except OSError:
                 pass
-    for _, e in ents[:-6]:
+    for mt, e in ents[:-6]:
+        if now - mt < 900:
+            continue
         shutil.rmtree(os.path.join(CACHE, e), ignore_errors=True)
+        try:
+            os.remove(os.path.join(CACHE, e + ".lock"))
+        except OSError:
+            pass
     return d, th, False, None
 
 
